@@ -1,6 +1,7 @@
 package lib
 
 import (
+	"fmt"
 	"net"
 	"regexp"
 	"strconv"
@@ -52,37 +53,45 @@ type RegConfig struct {
 
 // ParseBlocklists converts string arrays of blocklisted domains, addresses and
 // subnets and parses them into a usable format
-func (c *RegConfig) ParseBlocklists() {
+//
+// An entry that cannot be parsed is an error: silently dropping it would leave a subnet or domain
+// that the operator listed unenforced (and an allowlist whose entries all fail to parse would
+// switch the allowlist off altogether).
+func (c *RegConfig) ParseBlocklists() error {
 	c.covertBlocklistSubnets = []*net.IPNet{}
 	for _, subnet := range c.CovertBlocklistSubnets {
 		_, ipNet, err := net.ParseCIDR(subnet)
-		if err == nil {
-			c.covertBlocklistSubnets = append(c.covertBlocklistSubnets, ipNet)
+		if err != nil {
+			return fmt.Errorf("covert_blocklist_subnets: invalid entry %q: %w", subnet, err)
 		}
+		c.covertBlocklistSubnets = append(c.covertBlocklistSubnets, ipNet)
 	}
 
 	c.covertBlocklistDomains = []*regexp.Regexp{}
 	for _, r := range c.CovertBlocklistDomains {
-		blockedDom := regexp.MustCompile(r)
-		if blockedDom != nil {
-			c.covertBlocklistDomains = append(c.covertBlocklistDomains, blockedDom)
+		blockedDom, err := regexp.Compile(r)
+		if err != nil {
+			return fmt.Errorf("covert_blocklist_domains: invalid pattern %q: %w", r, err)
 		}
+		c.covertBlocklistDomains = append(c.covertBlocklistDomains, blockedDom)
 	}
 
 	c.phantomBlocklist = []*net.IPNet{}
 	for _, subnet := range c.PhantomBlocklist {
 		_, ipNet, err := net.ParseCIDR(subnet)
-		if err == nil {
-			c.phantomBlocklist = append(c.phantomBlocklist, ipNet)
+		if err != nil {
+			return fmt.Errorf("phantom_blocklist: invalid entry %q: %w", subnet, err)
 		}
+		c.phantomBlocklist = append(c.phantomBlocklist, ipNet)
 	}
 
 	c.covertAllowlistSubnets = []*net.IPNet{}
 	for _, subnet := range c.CovertAllowlistSubnets {
 		_, ipNet, err := net.ParseCIDR(subnet)
-		if err == nil {
-			c.covertAllowlistSubnets = append(c.covertAllowlistSubnets, ipNet)
+		if err != nil {
+			return fmt.Errorf("covert_allowlist_subnets: invalid entry %q: %w", subnet, err)
 		}
+		c.covertAllowlistSubnets = append(c.covertAllowlistSubnets, ipNet)
 	}
 	if len(c.covertAllowlistSubnets) > 0 {
 		c.enableCovertAllowlist = true
@@ -92,7 +101,7 @@ func (c *RegConfig) ParseBlocklists() {
 		// Add all public local addresses to the blocklist.
 		ifaces, err := net.Interfaces()
 		if err != nil {
-			return
+			return nil
 		}
 
 		for _, i := range ifaces {
@@ -115,6 +124,7 @@ func (c *RegConfig) ParseBlocklists() {
 			}
 		}
 	}
+	return nil
 }
 
 // ParseOrResolveBlocklisted attempts to return an IP:port string whenever
